@@ -74,7 +74,7 @@ _tlc_re_states = re.compile(r"(\d+) states generated, (\d+) distinct states foun
 
 
 def run_tlc(scratch, module, cfg_text, env=None, workers=1, timeout=600, extra=None,
-            depth_first=False, name=None, heap="8g", coverage=False):
+            depth_first=False, name=None, heap="8g", coverage=False, files=None):
     """Runs TLC on spec/<module>.tla in a private directory. Returns a dict with
     stdout, states (distinct), generated, ok (no error reported), timed_out."""
     name = name or module
@@ -82,6 +82,8 @@ def run_tlc(scratch, module, cfg_text, env=None, workers=1, timeout=600, extra=N
     for f in os.listdir(os.path.join(VERIF, "spec")):
         if f.endswith(".tla"):
             shutil.copy(os.path.join(VERIF, "spec", f), d)
+    for fn, txt in (files or {}).items():
+        open(os.path.join(d, fn), "w").write(txt)
     open(os.path.join(d, module + ".cfg"), "w").write(cfg_text)
     tmp = os.path.join(d, "tmp")
     os.makedirs(tmp, exist_ok=True)
